@@ -179,10 +179,10 @@ def bind_program(sig, call):
         return f'p{x}' if x < n else f'u{x - n}'
     args = [str(v) for v in call['pos']] + [f'{nm(k)} = {v}' for k, v in call['named']]
     if call['star'] is not None:
-        args.append('*[' + ', '.join(str(v) for v in call['star']) + ']')
+        args.append('*[' + ', '.join(str(v) for v in call['star']) + ']' if call.get('star_iterable', True) else '*7')
     if call['kw'] is not None:
         flags = call.get('kw_is_str') or [True] * len(call['kw'])
-        args.append('**{' + ', '.join((f'"{nm(k)}": {v}' if isstr else f'{7000 + j}: {v}') for j, ((k, v), isstr) in enumerate(zip(call['kw'], flags))) + '}')
+        args.append('**7' if call.get('kw_is_dict', True) is False else '**{' + ', '.join((f'"{nm(k)}": {v}' if isstr else f'{7000 + j}: {v}') for j, ((k, v), isstr) in enumerate(zip(call['kw'], flags))) + '}')
     body = ', '.join(f'p{i}' for i in range(n))
     return f'def f({", ".join(ps)}):\n    return [{body}]\n\ndef g():\n    return f({", ".join(args)})\n\ng()\n'
 
@@ -320,6 +320,87 @@ def run_bind(sess):
     sess.notes.add(f'C08.bind runs are spread over {workers} forked worker processes (solver time in the evidence is the sum over workers)')
 
 
+def _can_fill_task(task):
+    from . import c08_bind as B
+    sess = _SESS
+    sig, combos = task
+    z3.set_param('smt.random_seed', sess.seed & 0x7fffffff)
+    ob = Obligation('part', '', '')
+    base = (sess.decider.nq, dict(sess.decider.stats['z3']), dict(sess.decider.stats['cvc5']), sess.decider.stats['disagreements'], sess.feas_queries, sess.unknown_feas, sess.panic_edges_checked)
+    sess.encoded, sess.used_contracts = {}, {}
+    inst = 0
+    try:
+        for P, K in combos:
+            inst += B.run_can_fill(sess, ob, sig, P, K)
+    except (Unsupported, LookupError, StopIteration) as e:
+        ob.inconclusive(f'unsupported: {type(e).__name__} {e}')
+    dz = {k: sess.decider.stats['z3'][k] - base[1][k] for k in base[1]}
+    dc = {k: sess.decider.stats['cvc5'][k] - base[2][k] for k in base[2]}
+    return {'sig': sig, 'paths': ob.paths, 'queries': ob.queries, 'status': ob.status, 'reason': ob.reason, 'witnesses': sorted(ob.witnesses, key=lambda w: ('Optional' in w['sig']['kinds'], len(str(w))))[:6], 'inst': inst,
+            'encoded': sess.encoded, 'contracts': sess.used_contracts, 'nq': sess.decider.nq - base[0], 'z3': dz, 'cvc5': dc,
+            'disagreements': sess.decider.stats['disagreements'] - base[3], 'feas': sess.feas_queries - base[4], 'unk': sess.unknown_feas - base[5], 'panic': sess.panic_edges_checked - base[6]}
+
+
+def merge_worker_result(sess, ob, r):
+    ob.paths += r['paths']
+    ob.queries += r['queries']
+    if r['status'] == 'inconclusive':
+        ob.inconclusive(r['reason'])
+    for w in r['witnesses']:
+        ob.fail(w)
+    sess.encoded.update(r['encoded'])
+    for c, v in r['contracts'].items():
+        sess.used_contracts[c] = sess.used_contracts.get(c, 0) + v
+    sess.decider.nq += r['nq']
+    for kk, v in r['z3'].items():
+        sess.decider.stats['z3'][kk] += v
+    for kk, v in r['cvc5'].items():
+        sess.decider.stats['cvc5'][kk] += v
+    sess.decider.stats['disagreements'] += r['disagreements']
+    sess.feas_queries += r['feas']
+    sess.unknown_feas += r['unk']
+    sess.panic_edges_checked += r['panic']
+    return r['inst']
+
+
+def run_can_fill(sess):
+    """ParametersSpec::can_fill_with_args(pos, names) == "the call binds under the Python rules" (no *seq / **map)"""
+    global _SESS
+    import multiprocessing
+    import os
+    from . import c08_bind as B
+    nmax = 2 if sess.tier == 'quick' else 3
+    sigs = B.signature_shapes(nmax)
+    tasks = []
+    for sig in sigs:
+        pmax, kmax = (2, 2) if sig[0] <= 2 else (3, 1)
+        combos = [(P, K) for P in range(pmax + 2 if sess.tier != 'quick' and sig[0] <= 2 else pmax + 1) for K in range(kmax + 1)]
+        for c in combos:
+            tasks.append((sig, [c]))
+    tasks.sort(key=lambda t: -(t[0][0] * 10 + t[1][0][1] * 3 + t[1][0][0]))
+    _SESS = sess
+    t0 = time.time()
+    workers = int(os.environ.get('VERIF_WORKERS', '12'))
+    with multiprocessing.get_context('fork').Pool(workers) as pool:
+        results = pool.map(_can_fill_task, tasks, chunksize=1)
+    wall = time.time() - t0
+    for sig in sigs:
+        n, a, k = sig
+        mine = [t for t in tasks if t[0] == sig]
+        ob = Obligation(f'C08.can_fill[n={n},args={a},kwargs={k}]', 'ParametersSpec::can_fill_with_args(pos, names) is true exactly when a call with `pos` positional arguments and the named arguments `names` binds under the Python call rules',
+                        f'signature of {n} parameters with *args at {a} and **kwargs at {k}, kinds and positional counts solver-chosen; pos <= {max(t[1][0][0] for t in mine)}, up to {max(t[1][0][1] for t in mine)} pairwise different names, each any parameter name or unknown')
+        inst = 0
+        for r in results:
+            if r['sig'] == sig:
+                inst += merge_worker_result(sess, ob, r)
+        ob.sample = {'instances': inst}
+        ob.twin = 'sat' if inst else 'unsat'
+        if not inst:
+            ob.inconclusive('no instance reached (vacuity)')
+        ob.wall_s = wall / len(sigs)
+        sess.add(ob)
+
+
 def run_builder(sess):
     from . import c08_bind as B
     tmax = 3 if sess.tier == 'quick' else 4
@@ -346,6 +427,7 @@ def run_builder(sess):
 
 def run(sess):
     run_bind(sess)
+    run_can_fill(sess)
     run_builder(sess)
     variants = enum_variants(AST, 'ParameterP')
     mexec.ENUMS['ParameterP'] = variants
@@ -609,13 +691,36 @@ def validate(sess, rp):
         bc.append({'kind': 'eval', 'dialect': 'extended', 'program': bind_program(sig, call)})
         wv = py_bind(sig, call)
         bw.append(None if wv is None else bind_repr(sig, wv))
+    # can_fill_with_args through the public API vs the same reference
+    fc, fw = [], []
+    while len(fc) < 400:
+        n = rnd.randint(0, 4)
+        kinds = [rnd.choice(['Required', 'Optional', 'Defaulted']) for _ in range(n)]
+        if n and rnd.random() < 0.4:
+            kinds[-1] = 'KWargs'
+        body = n - (1 if kinds and kinds[-1] == 'KWargs' else 0)
+        a = None
+        if body and rnd.random() < 0.4:
+            a = rnd.randrange(body)
+            kinds[a] = 'Args'
+        npos = a if a is not None else rnd.randint(0, body)
+        sig = {'kinds': kinds, 'npos': npos, 'nposonly': rnd.randint(0, npos)}
+        names = [i for i in range(n + 2) if i >= n or kinds[i] in ('Required', 'Optional', 'Defaulted')]
+        K = rnd.randint(0, min(3, len(names)))
+        call = {'pos': [100 + j for j in range(rnd.randint(0, 4))], 'named': list(zip(rnd.sample(names, K), [200 + j for j in range(K)])), 'star': None, 'kw': None}
+        fc.append(can_fill_case(sig, call))
+        fw.append(py_bind(sig, call) is not None)
+    fres = rp.run(fc, 'dev')
     bres = rp.run(bc, 'dev')
     mism = []
+    for c, w, r in zip(fc, fw, fres):
+        if r.get('ok') != w:
+            mism.append({'can_fill': c, 'native': r, 'python_rules': w})
     for c, w, r in zip(bc, bw, bres):
         if r.get('ok') != w or 'panic' in r:
             mism.append({'program': c['program'], 'native': r, 'python_rules': w})
     res = rp.run(cases, 'dev')
-    cases_n = len(bc)
+    cases_n = len(bc) + len(fc)
     for c, w, r in zip(cases, want, res):
         acc = 'err' not in r and 'panic' not in r
         if acc != w:
@@ -626,7 +731,7 @@ def validate(sess, rp):
 def replay_bind(w, rp):
     from .c08_bind import py_bind
     sig, call = w['sig'], w['call']
-    call = {'pos': call['pos'], 'named': [tuple(x) for x in call['named']], 'star': call['star'], 'kw': None if call['kw'] is None else [tuple(x) for x in call['kw']], 'kw_is_str': call.get('kw_is_str')}
+    call = {'pos': call['pos'], 'named': [tuple(x) for x in call['named']], 'star': call['star'], 'kw': None if call['kw'] is None else [tuple(x) for x in call['kw']], 'kw_is_str': call.get('kw_is_str'), 'star_iterable': call.get('star_iterable', True), 'kw_is_dict': call.get('kw_is_dict', True)}
     prog = bind_program(sig, call)
     if prog is None or not valid_sig(sig):
         return {'reproduced': False, 'role': 'argument binding', 'detail': f'signature {sig} cannot be written as a def (native-only optional parameter or outside the builder invariant)', 'cases': []}
@@ -674,9 +779,35 @@ def replay_builder(w, rp):
     return {'reproduced': bool(notes), 'role': 'signature builder', 'detail': '; '.join(notes)[:600] or 'the probing calls behave as the Python rules say', 'cases': progs[:3]}
 
 
+def can_fill_case(sig, call):
+    kinds = sig['kinds']
+    n = len(kinds)
+    reg = [i for i in range(n) if kinds[i] in ('Required', 'Optional', 'Defaulted')]
+    a = kinds.index('Args') if 'Args' in kinds else None
+    po = [[f'p{i}', kinds[i]] for i in reg if i < sig['nposonly']]
+    pn = [[f'p{i}', kinds[i]] for i in reg if sig['nposonly'] <= i < sig['npos']]
+    no = [[f'p{i}', kinds[i]] for i in reg if i >= sig['npos']]
+    return {'kind': 'can_fill', 'pos_only': po, 'pos_or_named': pn, 'args': a is not None, 'named_only': no, 'kwargs': 'KWargs' in kinds,
+            'pos': len(call['pos']), 'names': [(f'p{x}' if x < n else f'u{x - n}') for x, _ in call['named']]}
+
+
+def replay_can_fill(w, rp):
+    from .c08_bind import py_bind
+    sig, call = w['sig'], w['call']
+    call = {'pos': call['pos'], 'named': [tuple(x) for x in call['named']], 'star': None, 'kw': None}
+    if not valid_sig({**sig, 'kinds': [('Defaulted' if x == 'Optional' else x) for x in sig['kinds']]}) and False:
+        pass
+    case = can_fill_case(sig, call)
+    res = rp.run([case], 'dev')[0]
+    want = py_bind(sig, call) is not None
+    return {'reproduced': 'panic' in res or res.get('ok') != want, 'role': 'can_fill_with_args', 'detail': f'new_parts({case["pos_only"]}, {case["pos_or_named"]}, args={case["args"]}, {case["named_only"]}, kwargs={case["kwargs"]}).can_fill_with_args({case["pos"]}, {case["names"]}) = {res.get("ok", res)}, the Python rules say {want}', 'cases': [case]}
+
+
 def replay_witness(w, rp):
     if w['kind'] == 'bind':
         return replay_bind(w, rp)
+    if w['kind'] == 'can_fill':
+        return replay_can_fill(w, rp)
     if w['kind'] == 'builder':
         return replay_builder(w, rp)
     if w['kind'] == 'call_args':
